@@ -137,6 +137,12 @@ def w_pos(callee, *args, **kwargs):
     return callee(*args, **kwargs)
 def w_two(x, callee, *args, **kwargs):
     return callee(x, *args, **kwargs)
+def other_default(u=0, *, v=1):
+    return ('other', u, v)
+def w_dflt(tag, *args, func=other_default, **kwargs):
+    return func(*args, **kwargs)
+def w_dflt_pos(tag, func=other_default, *args, **kwargs):
+    return func(*args, **kwargs)
 '''
 
 
@@ -183,6 +189,21 @@ def discovery_checks(ctx, rep, sigs):
                                   {'kind': 'discover', 'sig': d})
             except Exception as e:  # noqa: BLE001
                 rep.violation('C19:discover', 'sigtools.signature(partial(w_pos, callee=inner)) raised %s' % classify_exc(e), {'kind': 'discover', 'sig': d})
+            # a DEFAULT of the wrapper's callee parameter resolves nothing either: the caller
+            # (or a keyword bound by the partial) can still replace it
+            for label, p3 in (("partial(w_dflt, 't')", functools.partial(mod.w_dflt, 't')),
+                              ("partial(w_dflt, 't', func=inner)", functools.partial(mod.w_dflt, 't', func=inner)),
+                              ("partial(w_dflt_pos, 't')", functools.partial(mod.w_dflt_pos, 't'))):
+                n += 1
+                try:
+                    got3 = describe_sig(sigtools.signature(p3))
+                    exp3 = describe_sig(PS.signature(p3))
+                except Exception as e:  # noqa: BLE001
+                    rep.violation('C19:discover', 'sigtools.signature(%s) raised %s' % (label, classify_exc(e)), {'kind': 'discover', 'sig': d})
+                    continue
+                if shape_of(got3) != shape_of(exp3):
+                    rep.violation('C19:discover-default', '%s with inner%s: discovered %s although only bound positionals resolve callee parameters (plain: %s)'
+                                  % (label, show_sig(d), show_sig(got3), show_sig(exp3)), {'kind': 'discover', 'sig': d})
     finally:
         shutil.rmtree(tmp, ignore_errors=True)
     return n
@@ -270,4 +291,16 @@ def replay(ctx, data):
         c = case_from_data(r)
         res = decide(run_cases([c]))
         return res[0][2] if res else None
+    if r.get('kind') == 'discover':
+        from algebra import _fix_desc
+
+        class _R(object):
+            def __init__(self):
+                self.v = []
+
+            def violation(self, key, what, rp):
+                self.v.append(what)
+        rr = _R()
+        discovery_checks(ctx, rr, [_fix_desc(r['sig'])['params']])
+        return rr.v[0] if rr.v else None
     return None
